@@ -26,11 +26,20 @@ fn lua_from_env() -> Lua {
     {
         "unsafe" => unsafe { Lua::unsafe_new() },
         "safe" => Lua::new(),
-        _ => Lua::new_with(
-            StdLib::COROUTINE | StdLib::TABLE | StdLib::STRING | StdLib::UTF8 | StdLib::MATH,
-            Default::default(),
-        )
-        .expect("failed to start Lua"),
+        _ => {
+            let lua = Lua::new_with(
+                StdLib::COROUTINE | StdLib::TABLE | StdLib::STRING | StdLib::UTF8 | StdLib::MATH,
+                Default::default(),
+            )
+            .expect("failed to start Lua");
+            // The base library is always loaded and it can run Lua code from files.
+            for name in ["dofile", "loadfile"] {
+                lua.globals()
+                    .raw_set(name, mlua::Value::Nil)
+                    .expect("failed to restrict Lua globals");
+            }
+            lua
+        }
     }
     // </block>
 }
